@@ -398,6 +398,22 @@ def check(fx, rep, tier):
         discarded = any(anc.get("s") == "Let" and anc["pat"].get("p") == "Wild" for anc, _ in eps)
         rep.oblige(not discarded, "R13.2", "exec-result-used", F.loc(en["span"]), "the result of an opcode's execute is discarded in the main loop")
 
+    # a stop raised inside an opcode's copy loop only retires that thread; the analysis ends when the main loop's next poll is told
+    # to stop AGAIN. The answers of the library's own watchdogs are therefore plain reads: answering does not consume the request.
+    WRITES = {"swap", "store", "fetch_and", "fetch_or", "fetch_xor", "fetch_nand", "fetch_add", "fetch_sub", "fetch_update", "fetch_max", "fetch_min", "compare_exchange",
+              "compare_exchange_weak", "compare_and_swap", "set", "replace", "take", "borrow_mut", "get_mut", "lock", "write", "try_lock", "try_write", "send"}
+    n_impl = 0
+    for b in fx.fn_bodies():
+        if b.get("name") != "should_stop" or not b.get("hir") or "Watchdog" not in (b.get("impl_trait") or b["def"]):
+            continue
+        if b.get("in_test"):
+            continue
+        n_impl += 1
+        rep.fn(b["def"])
+        bad = sorted({n["method"] for n, _ in F.calls(b["hir"]["value"]) if n.get("k") == "MethodCall" and n["method"] in WRITES} | {"assignment" for n, _ in F.walk(b["hir"]["value"]) if n.get("k") in ("Assign", "AssignOp")})
+        rep.oblige(not bad, "R13.2", f"answer-is-a-read:{F.strip_generics(b['def']) if not b['def'].startswith('<') else b['def']}", F.loc(b["span"]), f"`{b['def']}` changes the watchdog's state while answering ({bad}): a stop request is consumed by the first poll that sees it, and a poll inside an instruction's copy loop only retires that thread - the main loop is then told to carry on and runs every remaining thread", sample={"rule": "R13.2", "impl": b["def"], "writes": bad})
+    rep.floor("R13.2", n_impl, 2, "implementations of Watchdog::should_stop in the library")
+
     # ---------------------------------------------------------------- R13.3
     n_stage = 0
     for b in fx.fn_bodies():
